@@ -36,7 +36,7 @@ V(vi, kind, check, verdict, detail) ==
 SubsetsBySize(devs) ==
   FlattenSeq([n \in 1..Cardinality(devs) |-> SetToSeq({S \in SUBSET devs : Cardinality(S) = n})])
 ScannerDevSets == SubsetsBySize(ScannerDevs)
-LayoutDevSets == SubsetsBySize({DevMultiWordKeywordSingleSpace, DevCommentMarkerInString, DevStarSlashUnitInCode})
+LayoutDevSets == SubsetsBySize(LayoutDevs)
 
 Prefix(s, n) == IF Len(s) >= n THEN SubSeq(s, 1, n) ELSE s
 
